@@ -29,6 +29,26 @@ pub struct Damage {
     pub kind: DamageKind,
 }
 
+#[derive(Clone, Debug, Serialize, Deserialize, PartialEq, Eq)]
+pub enum BlobDamageKind {
+    /// cut inside the header of a record (class: 0 first record, 1 middle, 2 last)
+    CutRecordHeader { which: u8, frac: u16 },
+    /// cut inside the data/meta of the last record
+    CutLastBody { frac: u16 },
+    /// zero the blob magic
+    ZeroMagic,
+    /// cut inside the 20-byte blob header (incl. zero length)
+    CutBlobHeader { frac: u16 },
+    /// flip a byte of a record header
+    FlipRecordHeader { which: u8, frac: u16 },
+}
+
+#[derive(Clone, Debug, Serialize, Deserialize, PartialEq, Eq)]
+pub struct BlobDamage {
+    pub sel: u16,
+    pub kind: BlobDamageKind,
+}
+
 #[derive(Clone, Debug, PartialEq, Eq, Serialize, Deserialize)]
 pub enum FailKind {
     Create,
@@ -57,6 +77,8 @@ pub enum Op {
     Free,
     /// clean close, optional damage to index files, build + init / init_lazy
     Reopen { lazy: bool, remove_all_idx: bool, damage: Vec<Damage> },
+    /// clean close, then the harness damages blob files so that init has to quarantine them, then init
+    CrashReopen { lazy: bool, damage: Vec<BlobDamage> },
     /// `n` writes of `vlen` bytes issued concurrently (keys outside the queried pool, distinct timestamps)
     Burst { n: u8, vlen: u32 },
     /// arm a one-shot failpoint: the `nth` matching file operation from now on fails
@@ -84,6 +106,7 @@ impl Op {
             Op::Free => "free",
             Op::Reopen { .. } => "reopen",
             Op::Burst { .. } => "burst",
+            Op::CrashReopen { .. } => "crash_reopen",
             Op::Fail { .. } => "fail",
             Op::Cancel { .. } => "cancel",
         }
@@ -208,6 +231,8 @@ pub struct GenParams {
     pub w_maint: u32,
     pub w_bg: u32,
     pub reopen_damage: bool,
+    /// weight of restarts with damaged blob files (quarantine)
+    pub w_crash: u32,
     pub vlen: VlenGen,
     pub fills: u8,
 }
@@ -228,6 +253,7 @@ impl Default for GenParams {
             w_maint: 0,
             w_bg: 0,
             reopen_damage: false,
+            w_crash: 0,
             vlen: VlenGen::Small,
             fills: 1,
         }
@@ -273,6 +299,21 @@ pub fn damage_strategy() -> BoxedStrategy<Damage> {
     (any::<u16>(), kind).prop_map(|(sel, kind)| Damage { sel, kind }).boxed()
 }
 
+pub fn blob_damage_strategy() -> BoxedStrategy<BlobDamage> {
+    let dk = prop_oneof![
+        4 => (0u8..3, any::<u16>()).prop_map(|(which, frac)| BlobDamageKind::CutRecordHeader { which, frac }),
+        2 => any::<u16>().prop_map(|frac| BlobDamageKind::CutLastBody { frac }),
+        2 => Just(BlobDamageKind::ZeroMagic),
+        2 => any::<u16>().prop_map(|frac| BlobDamageKind::CutBlobHeader { frac }),
+        2 => (0u8..3, any::<u16>()).prop_map(|(which, frac)| BlobDamageKind::FlipRecordHeader { which, frac }),
+    ];
+    (any::<u16>(), dk).prop_map(|(sel, kind)| BlobDamage { sel, kind }).boxed()
+}
+
+pub fn crash_reopen_strategy() -> BoxedStrategy<Op> {
+    (prop::bool::weighted(0.3), prop::collection::vec(blob_damage_strategy(), 1..3)).prop_map(|(lazy, damage)| Op::CrashReopen { lazy, damage }).boxed()
+}
+
 pub fn op_strategy(p: &GenParams) -> BoxedStrategy<Op> {
     let nkeys = p.nkeys;
     let metas = p.metas;
@@ -310,6 +351,7 @@ pub fn op_strategy(p: &GenParams) -> BoxedStrategy<Op> {
     add(p.w_lifecycle, lifecycle.boxed());
     add(p.w_maint, maint.boxed());
     add(p.w_bg, bg.boxed());
+    add(p.w_crash, crash_reopen_strategy().boxed());
     proptest::strategy::Union::new_weighted(choices).boxed()
 }
 
@@ -347,6 +389,7 @@ pub fn render_ops(ops: &[Op]) -> Vec<String> {
             Op::Offload { level } => format!("offload(l{})", level),
             Op::Cancel { victim, k } => format!("cancel({} after {})", victim.name(), k),
             Op::Burst { n, vlen } => format!("burst({}x{})", n, fmt_vlen(*vlen)),
+            Op::CrashReopen { lazy, damage } => format!("crash_reopen(lazy={},{:?})", lazy, damage.iter().map(|d| format!("{:?}", d.kind)).collect::<Vec<_>>()),
             Op::Fail { kind, on_index, nth, eio, short } => format!("fail({:?},{},n={},{},short={:?})", kind, if *on_index { "index" } else { "blob" }, nth, if *eio { "EIO" } else { "ENOSPC" }, short),
             other => other.name().to_string(),
         })
